@@ -218,6 +218,11 @@ func (g *G) genRandom(id string, opt randOpt) *History {
 			hh := Hdr{{"Date", dateAt(at, 0)}}
 			if g.chance(0.5) {
 				loc := pick(g, pick(g, r.spellings...), "/p1", "p1", "../p1", "//a.test/p1", "http://other.test/p1", "%zz", "http://a.test:8080/p1", "")
+				if g.chance(0.35) {
+					// another resource of this history, in any of its spellings (with and without the default port): when it
+					// is of the same origin as the target it must be invalidated too
+					loc = pick(g, resources[res[g.r.Intn(nres)]].spellings...)
+				}
 				hh = append(hh, [2]string{pick(g, "Location", "Content-Location"), loc})
 			}
 			if g.chance(0.2) {
@@ -434,7 +439,7 @@ func (g *G) classes() []genClass {
 	case "C04":
 		return []genClass{{8, vary}, {1, faults}, {1, backends}, {1, func(g *G, id string) *History { return g.genCollide(id) }}}
 	case "C07":
-		return []genClass{{7, inval}, {2, urls}, {2, func(g *G, id string) *History { return g.genInvalRace(id) }}}
+		return []genClass{{7, inval}, {2, urls}, {2, func(g *G, id string) *History { return g.genInvalRace(id) }}, {2, func(g *G, id string) *History { return g.genLocInval(id) }}}
 	case "C08":
 		return []genClass{{4, vary}, {2, grid}, {3, chain}, {2, inval}, {1, swrInval}, {1, func(g *G, id string) *History { return g.genRevalRace(id) }}}
 	case "C19":
